@@ -60,7 +60,7 @@ type params struct {
 func (*prop) Cases(seed int64, tier string) []core.Case {
 	nc, n, depth := 24, 100, 4
 	if tier == "thorough" {
-		nc, n, depth = 64, 300, 5
+		nc, n, depth = 128, 600, 5
 	}
 	var cs []core.Case
 	for i := 0; i < nc; i++ {
